@@ -71,6 +71,13 @@ func runC08(t *testing.T, seed uint64, m *Mask) *Report {
 	// which closes the first one gracefully; the peer close that follows must still wait for its handlers
 	takeover := closeKind == "peer" && !withCut && r.Chance(0.3)
 	vetoRead := !withCut && !takeover && r.Chance(0.2)
+	// or the closing side's session reaches its maximum age (a read deadline on the simulated clock, set in a
+	// connection hook) while Close waits for handlers: the calls towards the closing side are issued shortly
+	// before the deadline, their handlers sleep through it, and Close starts in between
+	ageRead := !withCut && !takeover && !vetoRead && r.Chance(0.2)
+	ageD := time.Duration(1+r.Intn(150)) * time.Millisecond
+	// or both ages are merely configured (long enough never to run out while the scenario is busy)
+	agesSet := !ageRead && r.Chance(0.2)
 	closeYield := r.Intn(80)
 	closeSleep := time.Duration(r.Intn(15)) * time.Millisecond
 	cutAfter := time.Duration(r.Intn(25)) * time.Millisecond
@@ -82,7 +89,7 @@ func runC08(t *testing.T, seed uint64, m *Mask) *Report {
 		withCut = false
 	}
 	rep := &Report{NOps: len(ops), NFaults: nFaults}
-	rep.Cell = fmt.Sprintf("%s,close=%s,cut=%v,dial=%v,takeover=%v", proto, closeKind, withCut, dial, takeover)
+	rep.Cell = fmt.Sprintf("%s,close=%s,cut=%v,dial=%v,takeover=%v,age=%v,ages=%v", proto, closeKind, withCut, dial, takeover, ageRead, agesSet)
 
 	out := world.Run(t, opt, func(e *world.Env) {
 		for _, op := range ops {
@@ -96,7 +103,16 @@ func runC08(t *testing.T, seed uint64, m *Mask) *Report {
 		// the closing side's reader may stop for a reason of its own while Close is waiting for handlers (a
 		// PreReadHeader hook that refuses to read on, as a session-age deadline would): the replies still go out
 		stopReading := false
-		A := e.NewPeer("A", erpc.PeerConfig{}, &c08ReadGate{stop: func(s erpc.Session) bool {
+		ageA := &world.AgeHook{Sticky: true}
+		if ageRead {
+			ageA.Next = ageD
+		}
+		cfgA := erpc.PeerConfig{}
+		if agesSet {
+			cfgA.DefaultSessionAge = time.Duration(5+e.Gen.Intn(60)) * time.Second
+			cfgA.DefaultContextAge = time.Duration(2+e.Gen.Intn(30)) * time.Second
+		}
+		A := e.NewPeer("A", cfgA, ageA, &c08ReadGate{stop: func(s erpc.Session) bool {
 			// only once the local Close has taken the session to its closing state (status 2, active closing)
 			return stopReading && s != nil && erpc.VerifSessionStatus(s) == 2
 		}})
@@ -128,12 +144,24 @@ func runC08(t *testing.T, seed uint64, m *Mask) *Report {
 			if !op.ToSrv {
 				sess, rt = sb, rtA
 			}
-			simrt.GoNamed(fmt.Sprintf("caller%d", op.Idx), func() { e.Issue(sess, rt, op, nil) })
+			lead := time.Duration(1+e.Gen.Intn(25)) * time.Millisecond
+			if ageRead && !op.ToSrv {
+				op.HSleep = lead + time.Duration(e.Gen.Intn(60))*time.Millisecond
+			}
+			simrt.GoNamed(fmt.Sprintf("caller%d", op.Idx), func() {
+				if ageRead && !op.ToSrv {
+					simrt.Sleep(time.Until(ageA.Deadline) - lead)
+				}
+				e.Issue(sess, rt, op, nil)
+			})
 		}
 		closeStart, closeEnd := -1, -1
 		simrt.GoNamed("closer", func() {
 			simrt.YieldN(closeYield)
-			if closeSleep > 0 {
+			if ageRead {
+				e.Net.Fault("session_age")
+				simrt.Sleep(time.Until(ageA.Deadline) - closeSleep)
+			} else if closeSleep > 0 {
 				simrt.Sleep(closeSleep)
 			}
 			closeStart = e.Sched.Stats.Steps
@@ -165,6 +193,20 @@ func runC08(t *testing.T, seed uint64, m *Mask) *Report {
 		e.CheckSettled("C08/task-stuck-at-quiescence")
 		if closeEnd < 0 {
 			e.Fail("C08/close-never-returns", "Close (%s) started at step %d and had not returned at quiescence (cut=%v)", closeKind, closeStart, cutFired)
+		}
+		// with a session age in play the deadline may pass before the local Close has begun: then the session ends
+		// passively (like a loss) and the statement about graceful close does not apply
+		passive := false
+		if ageRead {
+			for _, ev := range e.Obs.Status {
+				if ev.Sess == sa && ev.To == 4 {
+					passive = true
+					e.Probe("c08-age-expired-before-close")
+				}
+			}
+			if !passive {
+				e.Probe("c08-age-expired-during-close")
+			}
 		}
 		// handler entry/exit per tag
 		type hv struct{ enter, exit int }
@@ -212,13 +254,13 @@ func runC08(t *testing.T, seed uint64, m *Mask) *Report {
 			if h != nil && ((op.Route == "/std/weird" && op.Code == erpc.CodeInternalServerError) || (op.HCode != 0 && op.Code == op.HCode)) {
 				continue // the handler's genuine error reply arrived
 			}
-			if cutFired {
-				continue // a lost connection may fail any call in flight
+			if cutFired || passive {
+				continue // a lost connection (or a session that ended passively) may fail any call in flight
 			}
 			// The statement covers handlers already entered when Close was called (closing side), and calls the
 			// closing side issued before it called Close.  What starts after that point is not judged.
 			covered := h != nil && ((!op.ToSrv && h.enter < closeStart) || (op.ToSrv && op.IssuedAt < closeStart))
-			if vetoRead && op.ToSrv {
+			if (vetoRead || ageRead) && op.ToSrv {
 				covered = false // the closing side stopped reading on purpose: the replies to its own calls are not read
 			}
 			if h != nil && !covered {
@@ -226,12 +268,16 @@ func runC08(t *testing.T, seed uint64, m *Mask) *Report {
 			}
 			if covered {
 				e.Fail("C08/reply-lost-on-graceful-close", "op %s (%s): its handler was entered (step %d, close started at %d, returned at %d) but the caller got %d %q %q", op.Tag, info, h.enter, closeStart, closeEnd, op.Code, op.Msg, op.Cause)
+			} else if ageRead && h == nil && op.Code == erpc.CodeBadMessage {
+				// the age ran out while the request frame was being read: the reader answers "bad message" with the
+				// timeout as cause before it gives up - no handler was entered, nothing to deliver
+				e.Probe("c08-age-expired-inside-a-request-frame")
 			} else if op.Code != erpc.CodeConnClosed && op.Code != erpc.CodeWriteFailed {
 				e.Fail("C08/unexpected-status", "op %s (%s): no handler ran, caller got %d %q %q", op.Tag, info, op.Code, op.Msg, op.Cause)
 			}
 		}
 		// (b) handlers of the closing side entered before Close returned must have returned before it did
-		if closeEnd >= 0 && !cutFired {
+		if closeEnd >= 0 && !cutFired && !passive {
 			for _, op := range ops {
 				if op.Dropped || op.ToSrv {
 					continue
